@@ -310,8 +310,10 @@ fn generated_cases(thorough: bool) -> Vec<Vec<i128>> {
         }
     }
     // the braced length is a const generic parameter
+    // (Copy element types only: with a generic length rustc cannot see that it is <= 1, so a non-Copy
+    // operand is rejected for every length -- a rule the model does not state)
     for n in [0i128, 1, 3, 16, 64] {
-        for et in [0i128, 1] {
+        for et in [0i128, 3] {
             v.push(vec![12, n, et, 0, 4]);
         }
     }
